@@ -46,14 +46,38 @@ def load_known():
     return json.load(open(p)).get("findings", [])
 
 
+def _library_frame(exc):
+    """'file:line in function' of the innermost traceback frame that lies in the ndcube package under check, or None."""
+    try:
+        import ndcube
+        root = os.path.dirname(os.path.abspath(ndcube.__file__)) + os.sep
+    except Exception:
+        return None
+    hit = None
+    for fr in traceback.extract_tb(exc.__traceback__):
+        if os.path.abspath(fr.filename).startswith(root):
+            hit = f"{os.path.relpath(fr.filename, os.path.dirname(root.rstrip(os.sep)))}:{fr.lineno} in {fr.name}"
+    return hit
+
+
 def _run_case(args):
     modname, case = args
     mod = importlib.import_module(modname)
     t0 = time.time()
     try:
         res = mod.run(case)
-    except Exception as e:  # harness failure, not a property failure
-        res = {"harness_error": f"{type(e).__name__}: {e}", "trace": traceback.format_exc()[-1500:]}
+    except Exception as e:
+        # An exception that escapes run(): raised inside the library under check (while the harness was building or
+        # observing the library's objects - on the unchanged tree no case does that) it is a finding about the
+        # library with this case as the failing input; raised anywhere else it is a failure of the harness itself.
+        lib = _library_frame(e)
+        if lib:
+            res = {"oracle": f"the library raised {type(e).__name__} while the check was building or observing its objects "
+                             f"({lib}): {str(e)[:160]}",
+                   "tags": ["library-exception"], "impl": {"err": err_kind(e)}, "model_req": None,
+                   "trace": traceback.format_exc()[-1500:]}
+        else:
+            res = {"harness_error": f"{type(e).__name__}: {e}", "trace": traceback.format_exc()[-1500:]}
     res["case"] = case
     res["t"] = time.time() - t0
     return res
